@@ -112,7 +112,9 @@ def c03(tier, seed):
         _mc_law(rep, seed, n_random=0, K=4, invariants=inv3, tag="c03k4")    # deeper on the hand-made ones
     jobs = []
     ng = 10 if quick else 64
-    for i, cfg in enumerate(_graphs(seed + 300, ng, tie_every=2, handmade=2, max_window=4)):
+    from .. import families
+    fam = [families.blocking_tie(random.Random(seed * 17 + k)) for k in range(2 if quick else 8)]
+    for i, cfg in enumerate(_graphs(seed + 300, ng - len(fam), tie_every=2, handmade=2, max_window=4) + fam):
         rng = random.Random(seed + i)
         gated = (i % 3 == 0)
         runs = []
@@ -162,13 +164,16 @@ def c04(tier, seed):
         _mc_law(rep, seed + 1, n_random=0, K=4, invariants=inv4, tag="c04k4")
     jobs = []
     ng = 10 if quick else 64
-    for i, cfg in enumerate(_graphs(seed + 400, ng, heavy=True)):
+    from .. import families
+    fam = [families.advance_mixed(random.Random(seed * 13 + k)) for k in range(2 if quick else 6)]
+    for i, cfg in enumerate(fam + _graphs(seed + 400, ng - len(fam), heavy=True)):
         rng = random.Random(seed + i)
-        # force overruns on one node and both scheduling modes across the population
-        n = cfg["nodes"][i % len(cfg["nodes"])]
-        n["cdist"] = sorted(set(n["cdist"] + [n["period"] + 1, 2 * n["period"] + 1]))
-        n["sched"] = "P" if i % 2 else "F"
-        _force_advance(cfg, mixed=(i % 2 == 0))
+        if i >= len(fam):
+            # force overruns on one node and both scheduling modes across the population
+            n = cfg["nodes"][i % len(cfg["nodes"])]
+            n["cdist"] = sorted(set(n["cdist"] + [n["period"] + 1, 2 * n["period"] + 1]))
+            n["sched"] = "P" if i % 2 else "F"
+            _force_advance(cfg, mixed=(i % 2 == 0))
         runs = [dict(history=_hist_step(rng.randint(4, 9)) + _hist_run(rng.randint(3, 7)))]
         jobs.append(dict(kind="async", id=f"c04g{i}", cfg=cfg, seed=seed + i, gate=False, runs=runs, timeout=600))
     res = engine.run_campaign(rep, jobs, {"C04"})
